@@ -1387,6 +1387,9 @@ func isSubqueryPattern(pattern *sqlparser.Subquery) bool {
 	return reflect.DeepEqual(pattern.Select, SubqueryPatternStatement.(*sqlparser.Select))
 }
 func isWherePattern(pattern *sqlparser.Where) bool {
+	if pattern == nil {
+		return false
+	}
 	if !strings.EqualFold(pattern.Type, WherePatternStatement.(*sqlparser.Select).Where.Type) {
 		return false
 	}
